@@ -168,7 +168,7 @@ async fn probe_tables(d: &risinglight::Database, tables: &[String]) -> Value {
     Value::Object(m)
 }
 
-async fn evaluate(snap_dir: &Path, case: &Case) -> Value {
+async fn evaluate(snap_dir: &Path, case: &Case, rot: usize) -> Value {
     let mut out = serde_json::Map::new();
     let d = match db::open_disk(snap_dir, &case.opts).await {
         Ok(d) => d,
@@ -181,11 +181,29 @@ async fn evaluate(snap_dir: &Path, case: &Case) -> Value {
     out.insert("boot_ok".into(), json!(true));
     out.insert("state".into(), probe_tables(&d, &case.tables).await);
     // the recovered store must accept new statements
-    let mut pr = vec![];
+    // the probe comes in groups of statements separated by "--"; the order of the groups rotates from snapshot
+    // to snapshot, so that the first statement that creates a row-set after recovery is not always the same
+    let mut groups: Vec<Vec<&String>> = vec![vec![]];
     for sql in &case.probe {
+        if sql == "--" {
+            groups.push(vec![]);
+        } else {
+            groups.last_mut().unwrap().push(sql);
+        }
+    }
+    groups.retain(|g| !g.is_empty());
+    if !groups.is_empty() {
+        let k = rot % groups.len();
+        groups.rotate_left(k);
+    }
+    let mut pr = vec![];
+    let mut pr_sql = vec![];
+    for sql in groups.into_iter().flatten() {
         pr.push(db::run_stmt(&d, sql).await);
+        pr_sql.push(sql.clone());
     }
     out.insert("probe".into(), json!(pr));
+    out.insert("probe_sql".into(), json!(pr_sql));
     out.insert("state_after_probe".into(), probe_tables(&d, &case.tables).await);
     // one compactor pass must not disturb it either
     tokio::time::sleep(Duration::from_millis(1002)).await;
@@ -297,13 +315,13 @@ async fn run_case(case: &Case, rec: &Rec) -> Value {
             rec.set_crash(None);
             let snaps2 = sh2.lock().unwrap().snaps.clone();
             for s2 in &snaps2 {
-                let mut v = evaluate(&s2.dir, case).await;
+                let mut v = evaluate(&s2.dir, case, second.len()).await;
                 v["label"] = json!(s2.label);
                 v["variant"] = json!(s2.variant);
                 second.push(v);
             }
         }
-        let mut v = evaluate(&s.dir, case).await;
+        let mut v = evaluate(&s.dir, case, outs.len()).await;
         v["label"] = json!(s.label);
         v["step"] = json!(s.step);
         v["path"] = json!(s.path);
